@@ -178,7 +178,10 @@ TOKENS = [b'\r', b'\n', b'\r\n', b' ', b'\t', b':', b';', b',', b'=', b'%', b'%f
 	b'=?uu?q?abc?=', b'=?hex?q?ab?=', b'=?base64?b?aA==?=', b'=?zlib?q?x?=', b'=?rot13?q?x?=', b'=?utf-7?q?+AGE-?=', b'=?a\x00b?q?x?=', b'=?idna?q?x?=', b'=?unicode_escape?q?\\x?=', b'=?undefined?q?x?=', b'=?punycode?b?gA==?=',
 	b"title*=a\x00b'en'x", b"title*=uu''x", b"title*=hex''zz", b"title*=utf-16''%ff", b"title*=undefined''x", b"; x*=idna''%ff", b'Content-Type: text/plain; charset*=', b'X: =?',
 	# names of media types and codings, where a coding / a charset / a media type is expected
-	b'application/json', b'multipart/form-data', b'multipart/byteranges', b'application/x-www-form-urlencoded', b'message/http', b'text/plain', b'application/gzip', b'application/zlib', b'x-gzip', b'GZIP', b'br', b'compress']
+	b'application/json', b'multipart/form-data', b'multipart/byteranges', b'application/x-www-form-urlencoded', b'message/http', b'text/plain', b'application/gzip', b'application/zlib', b'x-gzip', b'GZIP', b'br', b'compress',
+	# RFC 2231 / 5987 parameters with numbers that are not sizes and charset tokens that are not text
+	b'text/plain; charset*99999999999999999999=x', b'a; x*4294967296=y', b'a; x*0=a; x*18446744073709551616=b', b'a; x*-1=y', b'a; x*1000000=y; x*0=z',
+	b"text/plain; title*=\xfctf-8'en'%e2%82%ac", b"a; t*=\xff''x", b"a; t*=utf-8'\xe9n'x", b"a; t*='", b"a; t*=''", b"a; t*='''"]
 
 
 def mutate(rng, data):
